@@ -62,6 +62,10 @@ typedef struct {
     int rows, cols, nf, z0i, net;
 } spec_t;
 
+/* section S6: synthetic terms of a chosen magnitude for every shape */
+static int g_force_synth;
+static double g_synth_mag = 1.0;
+
 /* returns 0 added (solved), 1 added with synthetic terms, -1 violation */
 static int add_cal(vf_result *r, vnacal_t *vcp, vf_errlog *elog,
 	const spec_t *sp, const char *name, cs_scenario *sc)
@@ -82,6 +86,8 @@ static int add_cal(vf_result *r, vnacal_t *vcp, vf_errlog *elog,
 		margin >= 1e-5L)
 	    break;
     }
+    if (g_force_synth)
+	recipe = 2;
     if (recipe == 2) {
 	/*
 	 * No determining recipe for this shape: store synthetic error terms
@@ -102,7 +108,7 @@ static int add_cal(vf_result *r, vnacal_t *vcp, vf_errlog *elog,
 	    for (int f = 0; f < sp->nf; ++f)
 		cal->cal_error_term_vector[t][f] =
 		    vf_cunit(7700 + (uint64_t)sp->type, (uint64_t)(t * 8 + f))
-		    * (t % 3 == 0 ? 1.0 : 1e-3);
+		    * (t % 3 == 0 ? 1.0 : 1e-3) * g_synth_mag;
 	cal->cal_z0 = z0_alpha[sp->z0i];
 	if (_vnacal_add_calibration_common("c07", vcp, cal, name) == -1) {
 	    _vnacal_calibration_free(cal);
@@ -597,10 +603,14 @@ static const int e12shape[N_E12SHAPES][2] = {
     {1,1},{2,1},{2,2},{3,1},{3,2},{3,3}
 };
 static long n_s5(void) { return 1 + N_E12SHAPES * 3 * 2 + 8; }
+/* S6: error terms at the ends of the double range (subnormal, smallest
+   normal, very small, very large) x 8 types x 3 data precisions */
+static const double s6_mag[4] = { 3e-310, 2.5e-308, 1e-300, 1e+300 };
+static long n_s6(void) { return 4L * 8 * 3; }
 
 static long count(int tier)
 {
-    return n_s1(tier) + n_s2() + n_s3() + n_s4(tier) + n_s5();
+    return n_s1(tier) + n_s2() + n_s3() + n_s4(tier) + n_s5() + n_s6();
 }
 
 static const char *pname(int p, char *b, size_t n)
@@ -1037,9 +1047,24 @@ static void run(int tier, long idx, vf_result *r)
 	return;
     }
     idx -= N_E12SHAPES * 3 * 2;
-    {
+    if (idx < 8) {
 	spec_t sp = { types[idx], 2, 2, 2, 1, 2 };
 	run_legacy_written(r, &sp, 1);
+	return;
+    }
+    idx -= 8;
+    {
+	static const int dps[3] = { 0, 17, VNACAL_MAX_PRECISION };
+	int dp = dps[vf_digit(&idx, 3)];
+	int t = vf_digit(&idx, 8);
+	spec_t sp = { types[t], 2, 2, 2, 1, 2 };
+	g_force_synth = 1;
+	g_synth_mag = s6_mag[idx];
+	run_single(r, &sp, 0, dp, g_synth_mag < 1e-307 ? "S6 subnormal "
+		"terms" : g_synth_mag < 1.0 ? "S6 tiny terms" :
+		"S6 huge terms");
+	g_force_synth = 0;
+	g_synth_mag = 1.0;
     }
 }
 
